@@ -1,7 +1,12 @@
-From V Require Import Base.Bytes Base.Obs Base.Val Model.Stack Model.Truthy Model.Loops Model.Include.
-Record case := { c_world : world; c_data : val; c_page : itpl }.
+From V Require Import Base.Bytes Base.Obs Base.Val Model.Stack Model.Truthy Model.Loops Model.Include Model.FrontMatter.
+Record tree_case := { c_world : world; c_data : val; c_page : itpl }.
+(* an include tree, or a file text whose front-matter block is to be told from its body *)
+Inductive case := CTree (t : tree_case) | CSplit (s : bytes).
 Definition fuel := 400.
-Definition run (c : case) : obs :=
+(* the body alone is compared: it is the whole text exactly when no block was recognised (the hook's "has a block"
+   answer is nil-ness of the parsed map, which a block holding the null document also gives) *)
+Definition run_split (s : bytes) : obs := OL [OA (snd (extract s))].
+Definition run_tree (c : tree_case) : obs :=
   match eval (c_world c) fuel (init_stack (c_data c)) (c_page c) with
   | Ok (recs, _) => OL (OS "ok" :: map (fun r : record => OL (ON (fst r) :: map OA (snd r))) recs)
   | Err (EMissing f) => OL [OS "err"; OS "missing"; OA f]
@@ -9,5 +14,6 @@ Definition run (c : case) : obs :=
   | Err (EUnknownTag t) => OL [OS "err"; OS "unknown-tag"; OA t]
   | Err EFuel => OL [OS "err"; OS "fuel"]
   end.
+Definition run (c : case) : obs := match c with CTree t => run_tree t | CSplit s => run_split s end.
 Definition C (fm : scope) (wrapper : bool) (req : list bytes) (body : itpl) : comp :=
   {| c_fm := fm; c_wrapper := wrapper; c_required := req; c_body := body |}.
